@@ -10,6 +10,7 @@ import (
 	"sort"
 	"strconv"
 	"syscall"
+	"time"
 
 	"golang.org/x/sys/unix"
 )
@@ -69,7 +70,11 @@ func Connect4(port int) (int, int, error) {
 	}
 	// loopback connects complete at once; wait for writability to be sure
 	pfd := []unix.PollFd{{Fd: int32(fd), Events: unix.POLLOUT}}
-	_, _ = unix.Poll(pfd, 1000)
+	for tries := 0; tries < 50; tries++ {
+		if _, perr := unix.Poll(pfd, 1000); perr != syscall.EINTR {
+			break
+		}
+	}
 	sa, err := syscall.Getsockname(fd)
 	if err != nil {
 		syscall.Close(fd)
@@ -98,8 +103,19 @@ func UDP4(ip [4]byte) (int, int, error) {
 
 func WaitReadable(fd int, ms int) bool {
 	pfd := []unix.PollFd{{Fd: int32(fd), Events: unix.POLLIN}}
-	n, _ := unix.Poll(pfd, ms)
-	return n > 0
+	deadline := time.Now().Add(time.Duration(ms) * time.Millisecond)
+	for {
+		n, err := unix.Poll(pfd, ms)
+		if err == syscall.EINTR { // the Go runtime preempts with signals: wait for the rest of the interval
+			left := time.Until(deadline)
+			if left <= 0 {
+				return false
+			}
+			ms = int(left/time.Millisecond) + 1
+			continue
+		}
+		return n > 0
+	}
 }
 
 // Ready returns the revents poll(2) reports for fd right now.
